@@ -235,6 +235,15 @@ pub struct PubCase {
     /// call correlate() before properties() instead of after
     #[serde(default)]
     pub correlate_first: bool,
+    /// 0 = ASCII topic, 1 = topic of multi-byte UTF-8 characters (length counts bytes, rounded down to whole characters)
+    #[serde(default)]
+    pub topic_kind: u8,
+    /// 0 = Publication::bytes, 1 = Publication::new with a closure that uses its whole buffer as scratch, 2 = Publication::text
+    #[serde(default)]
+    pub payload_kind: u8,
+    /// Some(n): instead of the property-set table, one Content Type property of n bytes (property-block length boundaries)
+    #[serde(default)]
+    pub prop_str_len: Option<usize>,
 }
 
 fn pub_prop_sets() -> Vec<Vec<Prop>> {
@@ -275,9 +284,24 @@ fn pub_prop_sets() -> Vec<Vec<Prop>> {
 pub fn eval_pub(c: &PubCase) -> CaseOut {
     guarded("C09", || {
         let sets = pub_prop_sets();
-        let props_ref = sets[c.props % sets.len()].clone();
-        let topic: String = "t".repeat(c.topic_len);
-        let payload: Vec<u8> = (0..c.payload_len).map(|i| (i % 251) as u8).collect();
+        let props_ref = match c.prop_str_len {
+            Some(n) => vec![p(0x03, PVal::Str(vec![b'c'; n])), p(0x26, PVal::Pair(b"k".to_vec(), vec![]))],
+            None => sets[c.props % sets.len()].clone(),
+        };
+        let topic: String = match c.topic_kind {
+            0 => "t".repeat(c.topic_len),
+            // 2-, 3- and 4-byte characters in turn (9 bytes per round), filled up with ASCII
+            _ => {
+                let mut t = "\u{e9}\u{20ac}\u{1f600}".repeat(c.topic_len / 9);
+                t.push_str(&"t".repeat(c.topic_len % 9));
+                t
+            }
+        };
+        assert_eq!(topic.len(), c.topic_len);
+        let payload: Vec<u8> = match c.payload_kind {
+            2 => (0..c.payload_len).map(|i| b"az09 /"[i % 6]).collect(),
+            _ => (0..c.payload_len).map(|i| (i % 251) as u8).collect(),
+        };
         let corr: Option<Vec<u8>> = c.correlate.map(|n| (0..n).map(|i| (255 - i % 256) as u8).collect());
         let spec = Spec::plain(64, c.tx);
         let mut viol = Vec::new();
@@ -301,7 +325,56 @@ pub fn eval_pub(c: &PubCase) -> CaseOut {
             if c.retain {
                 publication = publication.retain();
             }
-            let r = match bench.run(conn.publish(publication), id) {
+            let r = match c.payload_kind {
+                1 => {
+                    let src = payload.clone();
+                    let f = move |buf: &mut [u8]| -> Result<usize, ()> {
+                        if buf.len() < src.len() {
+                            return Err(());
+                        }
+                        buf.fill(0xDD);
+                        buf[..src.len()].copy_from_slice(&src);
+                        Ok(src.len())
+                    };
+                    let mut q = Publication::new(&topic, f).qos(qos_of(c.qos));
+                    if c.correlate_first {
+                        if let Some(cd) = &corr {
+                            q = q.correlate(cd);
+                        }
+                        q = q.properties(&props);
+                    } else {
+                        q = q.properties(&props);
+                        if let Some(cd) = &corr {
+                            q = q.correlate(cd);
+                        }
+                    }
+                    if c.retain {
+                        q = q.retain();
+                    }
+                    bench.run(conn.publish(q), id)
+                }
+                2 => {
+                    let text = std::str::from_utf8(&payload).unwrap();
+                    let mut q = Publication::text(&topic, text).qos(qos_of(c.qos));
+                    if c.correlate_first {
+                        if let Some(cd) = &corr {
+                            q = q.correlate(cd);
+                        }
+                        q = q.properties(&props);
+                    } else {
+                        q = q.properties(&props);
+                        if let Some(cd) = &corr {
+                            q = q.correlate(cd);
+                        }
+                    }
+                    if c.retain {
+                        q = q.retain();
+                    }
+                    bench.run(conn.publish(q), id)
+                }
+                _ => bench.run(conn.publish(publication), id),
+            };
+            let r = match r {
                 Some(Ok(h)) => Ok(h.is_some()),
                 Some(Err(e)) => Err(Res::from_pub(&e)),
                 None => Err(Res::Cancelled),
@@ -400,7 +473,7 @@ pub fn eval_pub(c: &PubCase) -> CaseOut {
 fn pub_cases(tier: Tier) -> Vec<PubCase> {
     let mut v = Vec::new();
     let nsets = pub_prop_sets().len();
-    let base = PubCase { tx: 512, topic_len: 1, payload_len: 2, qos: 0, retain: false, props: 0, correlate: None, max_packet: None, correlate_first: false };
+    let base = PubCase { tx: 512, topic_len: 1, payload_len: 2, qos: 0, retain: false, props: 0, correlate: None, max_packet: None, correlate_first: false, topic_kind: 0, payload_kind: 0, prop_str_len: None };
     // flags x property sets x correlate
     for qos in 0..3u8 {
         for retain in [false, true] {
@@ -435,6 +508,38 @@ fn pub_cases(tier: Tier) -> Vec<PubCase> {
     for cd in [65534usize, 65535, 65536, 70000] {
         for qos in [0u8, 2] {
             v.push(PubCase { correlate: Some(cd), qos, tx: 80_000, ..base.clone() });
+        }
+    }
+    // the three ways to hand over a payload x topics of multi-byte characters, over lengths around the varint
+    // boundaries, with and without properties
+    for payload_kind in 0..3u8 {
+        for topic_kind in 0..2u8 {
+            if payload_kind == 0 && topic_kind == 0 {
+                continue;
+            }
+            for qos in 0..3u8 {
+                for (topic_len, payload_len) in [(1usize, 0usize), (9, 0), (9, 1), (27, 100), (20, 101), (127, 5), (128, 5), (130, 16250), (9, 16370), (9, 16371), (9, 16372), (9, 16373), (9, 16374), (9, 16375), (65535, 3)] {
+                    for props in [0usize, 11, nsets - 1] {
+                        for correlate in [None, Some(3usize)] {
+                            v.push(PubCase { qos, topic_kind, payload_kind, topic_len, payload_len, props, correlate, tx: topic_len + payload_len + 400, ..base.clone() });
+                        }
+                    }
+                }
+            }
+        }
+    }
+    // the property block's own length across its 1/2 and 2/3 byte boundaries (Content Type of n bytes plus a user
+    // property with an empty value: block = 3 + n + 6), with and without payload
+    let mut ns: Vec<usize> = (100..=140).collect();
+    ns.extend(16360..=16390);
+    ns.extend([65533, 65534, 65535]);
+    for n in ns {
+        for qos in [0u8, 1] {
+            for payload_len in [0usize, 7] {
+                for payload_kind in [0u8, 1] {
+                    v.push(PubCase { qos, payload_len, payload_kind, prop_str_len: Some(n), tx: n + 200, ..base.clone() });
+                }
+            }
         }
     }
     // buffer sizes from nothing to "just fits" (payload 10, topic 1: 16/18 bytes on the wire)
